@@ -151,7 +151,8 @@ def _c19_replay(name, rec):
 
 
 MARKER_TARGETS_C02 = ["dep_logic.utils:flatten_items", "dep_logic.markers.multi:MultiMarker.of", "dep_logic.markers.union:MarkerUnion.of",
-                      "dep_logic.utils:cnf", "dep_logic.utils:dnf", "dep_logic.utils:intersection", "dep_logic.utils:union"] + \
+                      "dep_logic.utils:cnf", "dep_logic.utils:dnf", "dep_logic.utils:intersection", "dep_logic.utils:union",
+                      "dep_logic.markers.multi:MultiMarker.union_simplify", "dep_logic.markers.union:MarkerUnion.intersect_simplify"] + \
     [f"{q}{op}" for q in ("dep_logic.markers.any:AnyMarker.", "dep_logic.markers.empty:EmptyMarker.", "dep_logic.markers.multi:MultiMarker.",
                           "dep_logic.markers.union:MarkerUnion.") for op in ("__and__", "__or__")]
 MARKER_TARGETS_C12 = [f"{q}{m}" for q in ("dep_logic.markers.single:SingleMarker.", "dep_logic.markers.multi:MultiMarker.", "dep_logic.markers.union:MarkerUnion.",
@@ -171,7 +172,8 @@ class MarkerPlan(Plan):
                 "with ev/uses ghosts; definitional axioms generated from the real evaluate() bodies; z3 with deterministic instantiation; atom layer by the bounded stand-in"
     trusted_base = ["A-ENGINE", "law.C13 (== implies same meaning/class/variables) as proved by the C13 check for atoms, bounded for compounds",
                     "assumed contracts (guarded by the bounded part): the operator law on two single markers (atom layer: _merge_single_markers, EqualityMarkerUnion/InequalityMultiMarker operators), "
-                    "the distributive branch of cnf/dnf, union_simplify/intersect_simplify", "A-HASHSEED", "A-TERM"]
+                    "the distributive branch of cnf/dnf", "A-STDLIB set semantics: set(xs), issubset, intersection, difference, `in` decide membership by == with an element (hash consistent with ==: C13)",
+                    "A-HASHSEED", "A-TERM"]
     rtc = [("marker_algebra", None)]
 
     def __init__(self, pid):
@@ -186,9 +188,10 @@ class MarkerPlan(Plan):
 
     def stages(self, tier, nproc):
         named, functions, crashes, notes = {}, {}, [], []
-        tmo = 20000 if tier == "quick" else 120000
+        tmo = 60000 if tier == "quick" else 180000      # per-VC budget; the slowest VCs take ~11 s with all cores busy
         targets = [] if self.pid == "C15" else MARKER_TARGETS_C02 + MARKER_TARGETS_C12
-        heavy = {"dep_logic.utils:flatten_items": 12, "dep_logic.markers.multi:MultiMarker.of": 6, "dep_logic.markers.union:MarkerUnion.of": 6, "dep_logic.utils:union": 3}
+        heavy = {"dep_logic.utils:flatten_items": 12, "dep_logic.markers.multi:MultiMarker.of": 6, "dep_logic.markers.union:MarkerUnion.of": 6, "dep_logic.utils:union": 3,
+                 "dep_logic.markers.multi:MultiMarker.union_simplify": 8, "dep_logic.markers.union:MarkerUnion.intersect_simplify": 8}
         jobs = []
         for t in targets:
             n = heavy.get(t, 1)
@@ -205,7 +208,7 @@ class MarkerPlan(Plan):
             return "C12." in name or any(t + "#" in name for t in MARKER_TARGETS_C12)
         if self.pid == "C15":
             return "C15." in name
-        return not ("C12." in name) and not ("C15." in name) and any(name.startswith(t + "#") for t in MARKER_TARGETS_C02 + ATOM_TARGETS)
+        return not ("C12." in name) and not ("C15." in name) and not ("C03." in name) and any(name.startswith(t + "#") for t in MARKER_TARGETS_C02 + ATOM_TARGETS)
 
     def own_rtc(self, check):
         return check.startswith(self.pid + ".")
@@ -258,7 +261,8 @@ def get_plan(pid):
                    "dep_logic.specifiers.union:UnionSpecifier._simplified_form", "dep_logic.specifiers:_release_series", "dep_logic.specifiers:_from_pkg_specifier"]
         if pid == "C04":
             targets = targets[-2:]
-        plan = JobsPlan(pid, [(t, "render_function", {"name": t}) for t in targets], rtc=["spec_text"], level="other",
+        extra = [("C04.fold", "spec_fold", {}), ("C04.parse", "spec_parse", {})] if pid == "C04" else []
+        plan = JobsPlan(pid, [(t, "render_function", {"name": t}) for t in targets] + extra, rtc=["spec_text"], level="other",
                         technique="contracts over structured versions (T-VER): pad_zeros, first_different_index (loop invariant), RangeSpecifier._simplified_form/__str__ and UnionSpecifier._simplified_form "
                                   "(what each rendered clause form must denote), _release_series and _from_pkg_specifier (the interval each PEP 440 clause denotes); z3 with deterministic instantiation; "
                                   "text round trip / membership against packaging as bounded part",
@@ -270,11 +274,12 @@ def get_plan(pid):
                                      "C04: final-release candidates and packaging's contains() are the bounded part (A-PKG-CONTAINS)"],
                         explanation="proof part: rendering forms and leaf translation are structurally what PEP 440 says (obligations C06.range.*, C06.union.*, C06.release-series.*, C04.leaf.*); "
                                     "bounded part: str()/parse round trip and membership against packaging over the version-text grammar, boundary-shape catalogue and expression trees")
-        marks = ("C04.leaf",) if pid == "C04" else ("C06.", "pad_zeros#", "first_different_index#")
+        marks = ("C04.leaf", "from_specifierset#", "parse_version_specifier#") if pid == "C04" else ("C06.", "pad_zeros#", "first_different_index#")
         plan.own = lambda name, marks=marks: any(m in name for m in marks) or "#raises." in name or "#cover" in name or "#subset" in name
         return plan
     if pid == "C03":
-        plan = JobsPlan("C03", [("C03.build_markers", "build_markers", {})], rtc=["marker_vs_packaging"], level="other",
+        ev_t = "dep_logic.markers.single:MarkerExpression._evaluate"
+        plan = JobsPlan("C03", [("C03.build_markers", "build_markers", {}), (ev_t, "atom_function", {"name": ev_t})], rtc=["marker_vs_packaging"], level="other",
                         technique="contract on dep_logic.markers._build_markers against a transcription of packaging's _evaluate_markers fold: the marker built from a parsed list evaluates as the `or` of its "
                                   "`and`-groups with nested lists taken recursively (loop invariant over the group list, T-MARK, z3), and a parsed (lhs, op, rhs) triple becomes an atom with the same variable and "
                                   "literal, operand order recorded and the operator mirrored exactly when the operands are swapped (all 10 operators x both orders); evaluation of every marker text over the atom "
@@ -282,12 +287,29 @@ def get_plan(pid):
                         trusted_base=["A-ENGINE", "A-PKG-EVAL: packaging evaluates a marker list as any(all(group)) over the groups separated by 'or', nested lists / triples recursively (transcribed from "
                                       "packaging.markers._evaluate_markers; cross-checked by the bounded part)", "the C02 operator law for `&` and the contract of MarkerUnion.of (proved by the C02 check)",
                                       "recursion: the contract is assumed for sub-trees (partial correctness)", "A-TERM"],
-                        assumptions=["atom level: that a MarkerExpression carrying the parsed triple evaluates as packaging's _eval_op on that triple (version-aware comparison, PEP 685 normalisation, "
-                                     "set-valued extras / dependency_groups) is string code on both sides: bounded part only",
+                        assumptions=["atom level, string variables, ==/!=/in/not in, both operand orders: MarkerExpression._evaluate returns what packaging's _eval_op returns on the written triple "
+                                     "(obligation C03.atom.evaluate-equals-packaging-eval-op; 'well-defined' = operator+literal is not a PEP 440 specifier)",
+                                     "atom level, the rest (version-aware comparison of python_version / python_full_version / platform_release, PEP 685 normalisation of extra, set-valued extras / "
+                                     "dependency_groups): string code on both sides, bounded part only",
                                      "parse_marker's tokenisation is packaging's own parser (shared by both sides)"],
                         explanation="proof part: the rewriting done while parsing cannot regroup and/or or swap an operator (obligations C03.tree.*, C03.atom.*); bounded part: dep-logic vs packaging.Marker on "
                                     "every text of the pool x environment grid, incl. literal-on-the-left atoms, name normalisation spellings, set-valued extras / dependency_groups")
-        plan.own = lambda name: "_build_markers#" in name
+        plan.own = lambda name: "_build_markers#" in name or "C03." in name or (name.startswith("dep_logic.markers.single:MarkerExpression._evaluate#") and "bridge.B2" not in name)
+        return plan
+    if pid == "C17":
+        plan = JobsPlan("C17", [("C17.parse", "spec_parse", {}), ("C17.fold", "spec_fold", {})], rtc=["spec_text"], level="other",
+                        technique="contract on parse_version_specifier over abstract texts ('<empty>' / contains '||' / other; packaging's SpecifierSet either raises its InvalidSpecifier or yields "
+                                  "clauses): returns exactly when packaging accepts every alternative, raises only dep_logic's InvalidSpecifier otherwise (error translation), and from_specifierset "
+                                  "(fold with `&` under an invariant) raises nothing; z3. Acceptance of the concrete PEP 440 grammar (that the leaf translation never raises on a valid clause) against "
+                                  "packaging as bounded part",
+                        trusted_base=["A-ENGINE", "A-STDLIB: `==`, `in`, `split('||')` on str (pieces contain no '||')", "A-PKG: SpecifierSet(text) raises packaging's InvalidSpecifier or iterates over its clauses",
+                                      "contract of _from_pkg_specifier (canonical result, no exception) - its no-exception half is established per operator over structured versions by the C04 leaf "
+                                      "obligations (raises.*), for texts of the modelled shapes", "C01/C05 law of `&`, `|`", "A-TERM"],
+                        assumptions=["which concrete strings packaging accepts, and that the textual arithmetic of the leaf translation (version texts with epochs, pre/post/dev segments, wildcards) "
+                                     "never raises on them: bounded part (version-text grammar and near-miss strings against packaging.SpecifierSet)"],
+                        explanation="proof part: the control structure of the parser - '<empty>', '||' alternatives (reduce with `|`), error translation, the `&` fold - for all texts; bounded part: "
+                                    "acceptance and exception class on the generated grammar and near-miss strings")
+        plan.own = lambda name: ("from_specifierset#" in name or "parse_version_specifier#" in name) and "C04." not in name
         return plan
     if pid == "C11":
         t = "dep_logic.markers.single:MarkerExpression.from_specifier"
